@@ -1120,6 +1120,7 @@ fn scenario_corpus(args: &Args, report: &mut Report) {
 }
 
 fn main() {
+    vcore::init_logger_from_env();
     let args = Args::parse();
     let scenario = args.str("scenario", "routing");
     let mut report = Report::new("ws_live", "in-process ws tracker + hand-written WebSocket clients; per-connection message logs read with an independent JSON reader and checked against the ws reference model with connection ownership (recipients adopted from the log after checking they are legal); distinct = (operation kind, configuration, outcome class)");
